@@ -832,14 +832,27 @@ impl<E: ElemT> TableWorld<E> {
         let t = self.slots[si].t.as_mut().unwrap();
         let out = self.ctx.call(op, || {
             let mut v: Vec<TE> = Vec::new();
-            if op.c == 7 && mutating {
-                // through fold()
-                t.iter_hash_mut(h).fold((), |(), x| {
+            if op.c >= 6 && mutating {
+                // through fold(); c == 6: after one next()
+                let mut it = t.iter_hash_mut(h);
+                if op.c == 6 {
+                    if let Some(x) = it.next() {
+                        v.push(te(x));
+                        x.set_payload(x.payload() ^ Self::TG);
+                    }
+                }
+                it.fold((), |(), x| {
                     v.push(te(x));
                     x.set_payload(x.payload() ^ Self::TG);
                 });
-            } else if op.c == 7 {
-                v = t.iter_hash(h).fold(v, |mut acc, x| {
+            } else if op.c >= 6 {
+                let mut it = t.iter_hash(h);
+                if op.c == 6 {
+                    if let Some(x) = it.next() {
+                        v.push(te(x));
+                    }
+                }
+                v = it.fold(v, |mut acc, x| {
                     acc.push(te(x));
                     acc
                 });
@@ -1111,7 +1124,7 @@ impl<E: ElemT> TableWorld<E> {
             }
         }
         let n = 1 + (op.a as u64 % 64) as usize;
-        let which = op.b.rem_euclid(6);
+        let which = op.b.rem_euclid(8);
         sim().probe(Probe::TryReserveGiant);
         let out = self.ctx.call(op, || match which {
             0 => one::<[u32; (1 << 58) - 1]>(n),
@@ -1119,7 +1132,10 @@ impl<E: ElemT> TableWorld<E> {
             2 => one::<[u64; (1 << 57) - 1]>(n),
             3 => one::<[u16; (1 << 59) - 1]>(n),
             4 => one::<[u8; (1 << 59) + 5]>(n),
-            _ => one::<[u64; (1 << 56) + 1]>(n),
+            5 => one::<[u64; (1 << 56) + 1]>(n),
+            // size * buckets fits in a usize, adding the alignment slack / the control bytes does not
+            6 => one::<[u8; (1 << 61) - 1]>(n),
+            _ => one::<[u16; (1 << 60) - 1]>(n),
         });
         let (ok, layout) = match out {
             Out::Ok(r) => r,
